@@ -47,7 +47,7 @@ def cases(tier, seed):
           dict(o, wk=wk) for o in c['ir']['subgraphs'][0]['ops']]
       yield cc
   for c in universe.graph_cases(
-      [(2, eg.T21, 'all' if tier == 'thorough' else 'first', 'one')]):
+      [(2, eg.T21, 'allx' if tier == 'thorough' else 'first', 'one')]):
     c.update({'rp': a, 'dk': dk if tier == 'thorough' else ['mix']})
     yield c
   if tier == 'thorough':
